@@ -114,7 +114,17 @@ class SimCalculate(Contract):
             e = ExcVal(I.exc_classes["Exception"])
             e.origin = "callee:calculate"
             return ("raise", e)
-        return ("return", mk_array(val_term(name, period)))
+        v = mk_array(val_term(name, period))
+
+        def inplace(ctx2, op, cur, rhs):
+            # the array calculate returns is the one the holder keeps: an in-place operation on it rewrites the stored value
+            ctx2.oblige("frame.array-returned-by-calculate-is-not-written-in-place", False, kind="frame")
+            r = v.attrs["binop"](ctx2, op, cur, rhs)
+            if r is NOT_IMPLEMENTED:
+                raise Unsupported("in-place operation on a calculated array")
+            return r
+        v.attrs["inplace"] = inplace
+        return ("return", v)
 
     def post(self, I, ctx, a, out, old):
         return []
